@@ -15,6 +15,7 @@ package cram
 //@   modifies buf[:], object(r).err
 //@   ensures 0 <= n && n <= len(buf)
 //@   ensures err == nil <==> n == len(buf)
+//@   ensures (n == 0 && len(buf) > 0) <==> err == io.EOF
 //@ trusted func ext:io.Reader.Read
 //@   modifies p[:]
 //@   ensures 0 <= n && n <= len(p)
